@@ -37,6 +37,33 @@ def check_map_two_iterables(xs: List[int], ys: List[int], c: int) -> bool:
     return got == list(map(_fn, xs, ys))
 
 
+def check_map_shared_iterator(n: int, c: int, k: int) -> bool:
+    """
+    pre: 0 <= n <= 7 and 1 <= c <= 8 and 2 <= k <= 3
+    post: _
+    """
+    # the same one-shot iterator passed k times: builtin map()/zip() pull one item from each argument in turn,
+    # so the argument tuples are consecutive runs of the stream; chunking must not change how they are formed
+    n, c, k = _small(n, 7), _small(c, 8), _small(k, 3)
+    it = iter(range(n))
+    chunks = list(_get_chunks(c, *([it] * k)))
+    results = [_process_chunk(_tup, ch) for ch in chunks]
+    got = list(_chain_from_iterable_of_lists(results))
+    ref = iter(range(n))
+    return got == list(map(_tup, *([ref] * k)))
+
+
+def _tup(*a):
+    return a
+
+
+def _small(o, hi):
+    for v in range(hi + 1):
+        if o == v:
+            return v
+    return hi
+
+
 def check_map_one_iterable(xs: List[int], c: int) -> bool:
     """
     pre: len(xs) <= 6
